@@ -69,7 +69,7 @@ func isWordTok(t string) bool {
 func bracketTok(t string) bool { return strings.ContainsAny(t[:1], "()[]{},") }
 
 var inlineMenu = []string{" ", "\t", "  ", " /*c*/ ", ""}
-var breakMenu = []string{"\n", "\n\n", "\r\n", " \n", "\n\t\n", " // c\n", "\n// c\n", "\n/* c */\n"}
+var breakMenu = []string{"\n", "\n\n", "\r\n", " \n", "\n\t\n", " // c\n", "\n// c\n", "\n/* c */\n", "\n\n\n", "\n// c\n// d\n", "\n\n// c\n\n"}
 
 type layOutcome struct {
 	Ctx    string
